@@ -58,10 +58,17 @@ model definitions:
   (`oracle_report` lines);
 * `seq call / call / …` — several calls executed one after the other on the same thread (hidden-state streams: colliding shapes
   and colliding (axis length, part count) pairs back to back, a refused call followed by a valid one, A–B–A); the model is a
-  function, so every call is answered on its own. -/
+  function, so every call is answered on its own;
+* (part 3) `g call…` / `g8 call…` — giant arrays named `iota:SHAPE[+OFF]` (more than 2^20 elements, axes beyond 2^24 positions),
+  never written out: `ok native` as for `n`, judged by the same harness-native reference;
+* (part 3) `z call` — the model's answer of `call`; the harness runs the call once more on element images in which all values are
+  equal as numbers but not bit-identical (+0.0 / -0.0) or constant. -/
 def handleOne (op : String) (args : List String) : Option String :=
   match op, args with
   | "n", _ :: _ => some "ok native"
+  | "g", _ :: _ => some "ok native"
+  | "g8", _ :: _ => some "ok native"
+  | "z", o :: as => handle1 o as
   | "oracle_report", _ => some "ok report"
   | _, _ => handle1 op args
 
